@@ -155,10 +155,10 @@ package ast
 //@   requires lpWF(self) && self.size <= 70368744177664 && lpIndexed(self)
 //@   modifies self.index, self.index[_]
 //@   ensures self.index != nil && lpIndexed(self) && lpWF(self)
-//@   loop 0: invariant 0 <= i && i <= self.size && self.index != nil && lpWF(self) && same(self.size, pre(self.size))
+//@   loop 0: invariant -1 <= i && i < self.size && self.index != nil && lpWF(self) && same(self.size, pre(self.size))
 //@   loop 0: invariant forall h uint64 :: has(self.index, h) ==> (0 <= self.index[h] && self.index[h] < self.size)
-//@   loop 0: invariant forall j int :: (0 <= j && j < i) ==> (has(self.index, lpAt(self, j).hash) && 0 <= self.index[lpAt(self, j).hash] && self.index[lpAt(self, j).hash] <= j && lpAt(self, self.index[lpAt(self, j).hash]).hash == lpAt(self, j).hash)
-//@   loop 0: decreases self.size - i
+//@   loop 0: invariant forall j int :: (i < j && j < self.size) ==> (has(self.index, lpAt(self, j).hash) && i < self.index[lpAt(self, j).hash] && self.index[lpAt(self, j).hash] <= j && lpAt(self, self.index[lpAt(self, j).hash]).hash == lpAt(self, j).hash)
+//@   loop 0: decreases i + 1
 
 // Get: the first pair whose key equals key, with its position; (nil, -1) iff there is none.
 //@ func (*linkedPairs).Get props C14,C15
